@@ -572,9 +572,27 @@ class SequenceEncoder(AbstractItemEncoder):
 
             namedTypes = value.componentType
 
-            for idx, component in enumerate(value.values()):
+            for idx in range(len(namedTypes) or len(value)):
+                # an absent OPTIONAL or DEFAULT component is looked at, not
+                # instantiated: encoding leaves the value as it was
+                component = value.getComponentByPosition(
+                    idx, default=None, instantiate=False)
+
                 if namedTypes:
                     namedType = namedTypes[idx]
+
+                    if component is None:
+                        if namedType.isOptional:
+                            if LOG:
+                                LOG('not encoding OPTIONAL component %r' % (namedType,))
+                            continue
+
+                        if namedType.isDefaulted:
+                            if LOG:
+                                LOG('not encoding DEFAULT component %r' % (namedType,))
+                            continue
+
+                        component = value[idx]
 
                     if namedType.isOptional and not component.isValue:
                         if LOG:
